@@ -581,7 +581,31 @@ def run_calls(px, calls: list[dict], names: list[str], xs: list[int], rec: Recor
     rec.cur = None
 
 
+class _Timeout(BaseException):
+    pass
+
+
 def _with_watchdog(fn, timeout: float):
+    """Run fn with a deadline: ("ok", value) | ("hung", None) | ("raised", exception).  In a process's main thread
+    the deadline is an interval timer (no extra thread: the worker processes run thousands of scripts); elsewhere
+    a watchdog thread."""
+    import signal
+
+    if threading.current_thread() is threading.main_thread():
+        def on_alarm(signum, frame):
+            raise _Timeout()
+
+        old = signal.signal(signal.SIGALRM, on_alarm)
+        signal.setitimer(signal.ITIMER_REAL, timeout)
+        try:
+            return "ok", fn()
+        except _Timeout:
+            return "hung", None
+        except BaseException as e:  # noqa: BLE001
+            return "raised", e
+        finally:
+            signal.setitimer(signal.ITIMER_REAL, 0)
+            signal.signal(signal.SIGALRM, old)
     box: dict = {}
 
     def body() -> None:
@@ -749,16 +773,22 @@ def run_behaviour(job: dict) -> dict:
         for cfg in cfgs:
             if cfg in SOCKETS:
                 out[cfg] = run_socket(cfg, proto, impl, calls, names, xs)
+                if out[cfg]["status"] == "hung":      # a hang counts only when a second, more patient run confirms it
+                    out[cfg] = run_socket(cfg, proto, impl, calls, names, xs, timeout=40.0)
             elif cfg == "subprocess":
                 d = Path(job["subdir"])
                 pf = d / f"program_{os.getpid()}_{first}.json"
                 pf.write_text(json.dumps(methods))
                 try:
                     out[cfg] = run_subprocess(d / "c01_worker.py", pf, proto, calls, names, xs)
+                    if out[cfg]["status"] == "hung":      # interpreter start-up on a busy machine: confirm patiently
+                        out[cfg] = run_subprocess(d / "c01_worker.py", pf, proto, calls, names, xs, timeout=180.0)
                 finally:
                     pf.unlink(missing_ok=True)
             else:
-                status, val = _with_watchdog(lambda c=cfg: hw.run(c, calls, names, xs), 30.0)
+                status, val = _with_watchdog(lambda c=cfg: hw.run(c, calls, names, xs), 60.0)
+                if status == "hung":          # in-process: only an overloaded machine or a runaway loop; confirm once
+                    status, val = _with_watchdog(lambda c=cfg: hw.run(c, calls, names, xs), 180.0)
                 out[cfg] = val if status == "ok" else {"calls": [], "status": status, "exc": repr(val), "server_died": []}
     finally:
         for sid in range(first, first + len(methods)):
